@@ -752,3 +752,20 @@ Lemma twin2_not_mt_consistent : ~ mt_consistent g_twin2.
 Proof.
   intro H. destruct (H 2 3 1 eq_refl) as [x [Hx _]]; [simpl; auto|]. simpl in Hx. contradiction.
 Qed.
+
+(* further satisfiability witnesses: ReferencePusher with the root already present; a Mounter
+   destination whose candidate repository has the (blob) root; two roots (ExtendedCopyGraph) *)
+Lemma example_runs_more :
+  (exists st, accepts g_ex (mkCfg 2 MRefPush 3 false true [] []) [0; 1; 2; 3]
+                [ExB 3; ExE 3 true; SFB 3; SFE 3; PuB 3 true; PuE 3 true PExists; SFC 3; Ret true] = Some st /\
+              returned st = Some true /\ tag st = Some 3) /\
+  (exists st, accepts g_blob (mkCfg 3 MTagger 0 true true [] []) []
+                [ExB 0; ExE 0 false; Cb CMountFrom 0; MtB 0; MtE 0 MMounted; Cb CMounted 0;
+                 TagB 0; TagE 0; Ret true] = Some st /\
+              returned st = Some true /\ tag st = Some 0 /\ present_nodes g_blob (dst st) = [0]) /\
+  (exists st, accepts g_ex (mkCfg 2 MGraph 3 false true [] [2]) [0; 1; 2; 3]
+                [ExB 3; ExE 3 true; Cb CSkip 3; ExB 2; ExE 2 true; Cb CSkip 2; Ret true] = Some st /\
+              returned st = Some true).
+Proof.
+  repeat split; eexists; (split; [vm_compute; reflexivity|]); repeat split; reflexivity.
+Qed.
